@@ -85,6 +85,25 @@ pub fn big_hunk_tree() -> (Opts, Tree) {
     (Opts::defaults(), t)
 }
 
+/// More entries than one index hunk takes with the *default* options (100 000): 100 200
+/// files of 256 bytes in four directories, 25 MB in all, so that with the default block
+/// size a combined block is stored while the first hunk is still being filled.
+pub fn over_default_hunk_tree() -> (Opts, Tree) {
+    let m = plain_meta();
+    let mut t = Tree::empty_root(Meta { mode: 0o755, ..m });
+    for d in 0..4usize {
+        let dir = format!("/d{d}");
+        t.0.insert(dir.clone(), Node { kind: Kind::Dir, meta: Meta { mode: 0o755, ..m } });
+        for i in 0..25_050usize {
+            t.0.insert(
+                format!("{dir}/f{i:05}"),
+                Node { kind: Kind::File { pool: 2 + ((i + d) % 6) as u8, len: 256 }, meta: Meta { mtime_s: m.mtime_s + (i % 1000) as i64, ..m } },
+            );
+        }
+    }
+    (Opts::defaults(), t)
+}
+
 /// 700 directories (20 x 35, each with its own mode and mtime and one small file): more
 /// directories than the open-file limit that `with_fd_limit` sets for the probe.
 pub fn many_dirs_tree() -> (Opts, Tree) {
